@@ -55,12 +55,16 @@ type PathRun struct {
 	bounds     map[string]int64
 	cuts       map[string]int
 	replaced   map[string]bool
+	fixed      map[string]string
+	fixedOrder []string
 
 	obligations, discharged, trivial int
 	symbolicAsserts                  int
 	unknownBranches                  int
 	ufOps, idealOps, idealCmps       int
 	roundedOps                       int
+	enclosedOps                      int
+	undecided                        int
 	inexactSites                     map[string]int
 	permittedPanics                  int
 	violations                       []*Violation
@@ -156,6 +160,9 @@ func (s *State) branch(cond *Term) bool {
 		}
 		r.pos++
 		r.taken = append(r.taken, d)
+		if s.eng.cfg.NoPrune && s.mentionsRealVar(cond) {
+			return d.B // outcome havocked (sound over-approximation; keeps the query in pure integer arithmetic)
+		}
 		if d.B {
 			s.assumeRaw(cond)
 		} else {
@@ -164,6 +171,20 @@ func (s *State) branch(cond *Term) bool {
 		return d.B
 	}
 	ncond := s.ctx.Not(cond)
+	if s.eng.cfg.NoPrune {
+		// bug-hunting mode: both sides are taken without asking the solver (infeasible paths end at
+		// their first obligation, whose query carries the whole path condition)
+		sib := make([]Decision, len(r.taken)+1)
+		copy(sib, r.taken)
+		sib[len(r.taken)] = Decision{Kind: 'b', B: false}
+		s.eng.push(sib)
+		r.taken = append(r.taken, Decision{Kind: 'b', B: true})
+		r.pos++
+		if !s.mentionsRealVar(cond) {
+			s.assumeRaw(cond)
+		}
+		return true
+	}
 	r1 := s.check(cond, false)
 	if r1 == Unsat {
 		r.taken = append(r.taken, Decision{Kind: 'b', B: false})
@@ -256,6 +277,10 @@ func (s *State) model() (map[string]string, []string) {
 	mv := r.solver.GetValues(s.ctx, r.inputs)
 	out := map[string]string{}
 	var order []string
+	for _, n := range r.fixedOrder {
+		out[n] = r.fixed[n]
+		order = append(order, n)
+	}
 	for _, in := range r.inputs {
 		order = append(order, in.Name)
 		if m, ok := mv[in]; ok {
@@ -341,7 +366,11 @@ func (s *State) checkCond(ok *Term, kind, label string) {
 			panic(pathEnd{kind + " on every remaining input"})
 		}
 	case Unknown:
-		panic(abortf("solver unknown on obligation %s %q at %s", kind, label, s.site()))
+		if s.eng.cfg.BugHunt {
+			r.undecided++
+		} else {
+			panic(abortf("solver unknown on obligation %s %q at %s", kind, label, s.site()))
+		}
 	default:
 		r.discharged++
 	}
@@ -403,4 +432,26 @@ func (s *State) chooseFree(lo, hi int64) int64 {
 	r.taken = append(r.taken, Decision{Kind: 'v', V: lo})
 	r.pos++
 	return lo
+}
+
+// mentionsRealVar: the term contains a Real-sorted variable (an enclosure of an inexact float result).
+func (s *State) mentionsRealVar(t *Term) bool {
+	seen := map[*Term]bool{}
+	var walk func(*Term) bool
+	walk = func(x *Term) bool {
+		if seen[x] {
+			return false
+		}
+		seen[x] = true
+		if x.Op == OpVar && x.Sort.K == KReal {
+			return true
+		}
+		for _, a := range x.Args {
+			if walk(a) {
+				return true
+			}
+		}
+		return false
+	}
+	return walk(t)
 }
